@@ -13,4 +13,8 @@ def handle : List Sx → Sx
       Sx.ok (.list [Sx.ofStrs (gs.map String.join), Sx.ofNats (gs.map JinjaV.Stream.ne), .str (String.join ps)])
     | _, _ => Sx.bad
   | _ => Sx.bad
+/-- request names served by this module (collected into `JinjaV.Wire.All` by tools/gen_wire_all.py) -/
+def handlers : List (String × (List Sx → Sx)) :=
+  [("stream", handle)]
+
 end JinjaV.Wire.Stream
